@@ -37,7 +37,7 @@ func cases() []tcase {
 		"genesis-time", "genesis-seed", "drop-member", "add-member", "member-address", "member-key", "member-signature", "leader-key"}
 	for _, base := range []string{"fresh", "complete"} {
 		for _, claimed := range []string{"L", "B", "X"} {
-			for _, signer := range []string{"L", "B", "X", "Xsub"} {
+			for _, signer := range []string{"L", "B", "X", "Xsub", "Xdup"} {
 				for _, m := range propMut {
 					if m != "none" && !(claimed == "L" && signer == "L") {
 						continue // mutations are applied to the otherwise legitimate packet
@@ -49,6 +49,9 @@ func cases() []tcase {
 						// a fresh node knows nobody: any validly self-signed proposer that signs its own proposal and lists the
 						// node is as good as another (that is what the group file handed over at join time is for)
 						legit = m == "none" && ((claimed == signer) || signer == "Xsub")
+						if signer == "Xdup" {
+							legit = false // one address listed twice with two keys: never a proposal to act on
+						}
 					}
 					out = append(out, tcase{Base: base, Kind: "proposal", Claimed: claimed, Signer: signer, Mutation: m, Legit: legit})
 				}
@@ -110,7 +113,7 @@ func runCase(w *dkgw.World, t tcase, scratch string) outcome {
 	dir := filepath.Join(scratch, "case")
 	_ = os.RemoveAll(dir)
 	dkgw.CopyFile(w.Snap[t.Base], filepath.Join(dir, dkg.BoltFileName))
-	s := vrt.Run(vrt.Options{Start: w.At[t.Base].Add(time.Second), MaxSteps: 200000, Watchdog: 30 * time.Second, Until: w.At[t.Base].Add(10 * time.Minute)}, func() {
+	s := vrt.Run(vrt.Options{Start: w.At[t.Base].Add(time.Second), MaxSteps: 200000, Watchdog: 60 * time.Second, Until: w.At[t.Base].Add(10 * time.Minute)}, func() {
 		ctx := context.Background()
 		st, err := dkg.NewDKGStore(dir)
 		if err != nil {
